@@ -34,9 +34,9 @@ def hist_of(state):
     return streams, hist
 
 
-def scen(run, name, streams, hist, sync, rotate_at=0, truncate=False, recycle=0, maint="", rotate_every=False):
+def scen(run, name, streams, hist, sync, rotate_at=0, truncate=False, recycle=0, maint="", rotate_every=False, remove_after=""):
     return dict(run=run, name=name, sync=sync, streams=streams, hist=hist, rotate_at=rotate_at, truncate=truncate, recycle=recycle, maint=maint,
-                rotate_every=rotate_every)
+                rotate_every=rotate_every, remove_after=remove_after)
 
 
 def run(ctx):
@@ -162,6 +162,13 @@ def run(ctx):
     for i in range(40 if thorough else 14):
         n = 12
         scs.append(scen(k, "rotate-every-line-%d" % k, ["a"] * n, [["open", 0]] + [["append", j] for j in range(1, n + 1)], True, rotate_every=True))
+        k += 1
+    # remove_after: an idle file is removed -- "unless new data is written".  Writes are not watched (the default), maintenance
+    # runs once a second, the file expires after two: a line appended at a random instant around the expiry must still be delivered
+    # (either read before the removal, or written to the file the writer creates anew).  Probabilistic: the window is one tick wide.
+    for i in range(16 if thorough else 8):
+        hist = [["open", 0], ["append", 1], ["sleep", ctx.rng.randint(1200, 3400)], ["append", 2], ["sleep", 1500]]
+        scs.append(scen(k, "remove-after-%d" % k, ["a", "a"], hist, True, truncate=True, maint="1s", remove_after="2s"))
         k += 1
     # truncated in place and rewritten SHORTER than the saved offsets while file.d is down: the file must be started over
     for i in range(4 if thorough else 2):
